@@ -68,7 +68,7 @@ def device_failures(rng, c):
     devs = [s_.name for s_ in ps.sensors] + [i_.name for i_ in ps.intelligent_switches]
     for k, fl in list(c["faults"].items()):
         for name, rep in list(fl):
-            if type(ps.get_comp(name)).__name__ != "Line":
+            if name == ps.controller.name or type(ps.get_comp(name)).__name__ != "Line":
                 continue
             own = [f"I{d.name}" for d in ps.get_comp(name).disconnectors if d.intelligent_switch is not None] + \
                   ([f"S{name}"] if ps.get_comp(name).sensor is not None else [])
@@ -111,6 +111,10 @@ def gen(rng, nm, na):
                             c["faults"].setdefault(str(kk), []).append([f"IL{rng.randrange(len(ict['lines']))}", str(rng.choice([F(2), F(3), F(7, 2)]))])
         if c["spec"]["ctrl"]["type"] == "main" and rng.random() < 0.4:
             device_failures(rng, c)
+        if c["spec"]["ctrl"]["type"] == "main" and rng.random() < 0.3:
+            # the main controller goes down for a while (manual fallback) and comes back
+            for _ in range(rng.choice([1, 2])):
+                c["faults"].setdefault(str(rng.randint(1, 12)), []).append(["C1", str(rng.choice([F(1, 2), F(1), F(2), F(5, 2)]))])
         cases.append(c)
     return cases
 
